@@ -114,6 +114,7 @@ func (w *World) recvOracle(c *tibctesting.TestChain, p packettypes.Packet, h uin
 		if hasC && hasA {
 			w.hit("C11", "relay-refused-packet-but-left-forwarding-commitment "+key)
 			w.hit("C13", "relay-refused-packet-but-left-forwarding-commitment "+key)
+			w.hit("C19", "error-acknowledged-receive-left-a-forwarding-commitment "+key)
 		}
 		if !hasC && !hasA {
 			w.hit("C11", "relay-accepted-packet-but-neither-forwarded-nor-answered "+key)
